@@ -163,6 +163,22 @@ def gen_cases(ctx):
         add(p, ["-file=" + hf[0], "-sep"], ["file-sep", "foreign-generated-header"])
         p = g.package(cmd, n_elig=3, foreign_header=True, colocate=True)
         add(p, [sel_flag(rng, p["elig_hint"][:2])], ["named-two", "foreign-generated-header"])
+        # ---- names that are not package-level types: function-local struct, predeclared type with constants, type parameter ----
+        for which in ("local", "predeclared", "tparam"):
+            p = g.package(cmd, n_elig=2, nfiles=3, extra=("nonpkg-names",))
+            nm = p["nonpkg"][which]
+            add(p, ["-file=" + rng.choice(p["files"])["name"], "-type=" + nm], ["file+named-notin", "nonpkg-" + which])
+            p = g.package(cmd, n_elig=2, nfiles=3, extra=("nonpkg-names",))
+            nm = p["nonpkg"][which]
+            add(p, ["-file=" + rng.choice(p["files"])["name"], "-type=%s,%s" % (p["elig_hint"][0], nm)], ["file+named-notin", "nonpkg-" + which])
+            p = g.package(cmd, n_elig=2, nfiles=3, extra=("nonpkg-names",))
+            add(p, ["-type=" + p["nonpkg"][which]], ["named-one", "nonpkg-" + which])
+        p = g.package(cmd, n_elig=2, nfiles=3, extra=("nonpkg-names",))
+        add(p, ["-file=" + p["nonpkg"]["local_file"], "-type=" + p["nonpkg"]["local"]], ["file+named-notin", "nonpkg-local-same-file"])
+        p = g.package(cmd, n_elig=2, nfiles=3, extra=("nonpkg-names",))
+        add(p, ["-type=*"], ["star", "nonpkg-names"], directive="exact")
+        p = g.package(cmd, n_elig=2, nfiles=3, extra=("nonpkg-names",))
+        add(p, ["-file=" + p["nonpkg"]["local_file"]], ["file", "nonpkg-names"])
         # ---- file names ending with the -file value ----
         for selx in ([], ["-sep"], ["-type=*"]):
             p = g.package(cmd, n_elig=4, nfiles=3, suffix_names=True)
@@ -240,7 +256,7 @@ def gen_cases(ctx):
             extra.append("grouped")
         if rng.random() < 0.12:
             extra.append(rng.choice(["tparam-other-file", "tparam-same-file", "tparam-of-type-other-file", "embedded-earlier",
-                                     "field-earlier", "method-earlier", "ifaceembed-earlier", "otherpkg-earlier"]))
+                                     "field-earlier", "method-earlier", "ifaceembed-earlier", "otherpkg-earlier", "nonpkg-names", "nonpkg-names"]))
         p = g.package(cmd, extra=tuple(extra), colocate=rng.random() < 0.2, suffix_names=rng.random() < 0.15,
                       foreign_header=rng.random() < 0.15)
         el = p["elig_hint"]
@@ -253,6 +269,8 @@ def gen_cases(ctx):
             focus = p.get("earlier") or p.get("shadowed")
             if focus:
                 pool += [focus] * 12
+            if p.get("nonpkg"):
+                pool += [p["nonpkg"]["local"], p["nonpkg"]["predeclared"], p["nonpkg"]["tparam"]] * 5
             names = []
             for _ in range(n):
                 c = rng.choice(pool)
